@@ -151,7 +151,7 @@ def cls_band(f):
             check_gate_replacement(s, d.decompose(s))
         except Exception:  # noqa: BLE001
             dist, _ = c01._proposal_distance(s, dec)
-            return dist is not None and dist <= c01.BAND_RESIDUAL
+            return dist is not None and c01.BAND_FLOOR <= dist <= c01.BAND_RESIDUAL
     return False
 
 
